@@ -8,6 +8,7 @@
                              `csd_pairs /= (Fs * s.shape[-1])` (as repaired, see known_findings "fixed")
      herm_complete  360-363, 723-726  csd_mat = csd_pairs.transpose(1,0,2).conj(); csd_mat += csd_pairs;
                              csd_mat[diag] /= 2
+     nw_csd         668-676  NW / BW / default derivation of multi_taper_csd
      mtcsd_pairs    708-721  multi_taper_csd: mtm_cross_spectrum(ti, tj, (wi, wj), sides) for j <= i
      mtcsd          723-727  completion, then `csdfs /= Fs`
      welch_*        103-137  get_spectra, Welch branch: defaults, output length, the pair loop
@@ -47,6 +48,15 @@ Definition mtcsd_pairs (sd : sides) (N K : nat) (w : nat -> nat -> nat -> Q) (d 
 Definition mtcsd (sd : sides) (N K : nat) (Fs : Q) (w : nat -> nat -> nat -> Q) (d : nat -> nat -> Q)
            (Y : nat -> nat -> sig) (i j f : nat) : C :=
   cscale (/ Fs) (herm_complete (mtcsd_pairs sd N K w d Y) i j f).
+
+(* multi_taper_csd 668-675: its own copy of the NW / BW derivation, modelled as written there
+   (`norm_BW = np.round(BW * N / Fs)` with N = s.shape[-1]; proved equal to multi_taper_psd's in
+   Proofs/CsdP.v: nw_csd_is_nw_psd, so the same keywords give the same tapers in both functions) *)
+Definition nw_csd (bw nw : option Q) (n : nat) (Fs : Q) : Q :=
+  match bw with
+  | Some b => inject_Z (qrne (b * inj n / Fs)) / 2
+  | None => match nw with Some v => v | None => 4 end
+  end.
 
 (* ---- get_spectra, Welch branch *)
 Definition welch_default_nfft : nat := 64.
